@@ -94,9 +94,57 @@ def corpus():
         c2.token(), g.hx(b"D3dddd\n"), g.hx(b"E4\n"), g.hx(b"F5\n"))]
 
 
+def directed_direct_naming(rng, n):
+    """direct namings (no rCURRENT): the file being written changes its name with every rotation, so the generator asks the
+    model which file is current (the symlink target in the model's snapshot), lets somebody rename exactly that file, and
+    reopens: the records after the reopen belong into a new file at that path, not into an older member of the family"""
+    import os, subprocess, tempfile
+    import lib
+    lib.ocaml_build()
+    pre = []
+    for i in range(n):
+        naming = rng.choice(["numd", "tsd"])
+        cap = rng.choice([None, None, 8, 64])
+        cfg = g.Cfg(base=b"a", crit="s%d" % rng.choice([6, 12]), naming=naming, cap=cap, link=True)
+        ops = ["B:" + cfg.token()]
+        k = 0
+        for _ in range(rng.randint(2, 6)):
+            r = rng.random()
+            if r < 0.7:
+                ops.append("W:" + g.hx(b"%c%d\n" % (65 + k % 26, k)))
+                k += 1
+            elif r < 0.85:
+                ops.append("T")
+            else:
+                ops.append("K:1")
+        pre.append((cfg, ops, k))
+    with tempfile.TemporaryDirectory(dir="/dev/shm") as d:
+        f = os.path.join(d, "pre.cases")
+        with open(f, "w") as fh:
+            for i, (cfg, ops, k) in enumerate(pre):
+                fh.write("p%d flw %d 0 ; %s F SN\n" % (i, g.T0, " ".join(ops)))
+        out = subprocess.run([lib.DRIVER, f], stdout=subprocess.PIPE).stdout.decode()
+    cur = {}
+    for line in out.split("\n"):
+        if line.startswith("p") and "link=" in line:
+            t = line.split(" ")
+            snap = [x for x in t if x.startswith("s{")][-1]
+            cur[int(t[0][1:])] = snap.split("link=")[1].split(";")[0]
+    cases = []
+    for i, (cfg, ops, k) in enumerate(pre):
+        if cur.get(i, "~") in ("~", ""):
+            continue
+        tail = ["XR:%s:%s" % (cur[i], g.hx(b"moved.txt")), "R"]
+        for _ in range(rng.randint(1, 3)):
+            tail.append("W:" + g.hx(b"%c%d\n" % (65 + k % 26, k)))
+            k += 1
+        cases.append("flw %d 0 ; %s F SN %s S SN" % (g.T0, " ".join(ops), " ".join(tail)))
+    return cases
+
+
 def generate(rng, tier):
     n = 600 if tier == "quick" else 30000
-    return [gen(rng, tier) for _ in range(n)]
+    return [gen(rng, tier) for _ in range(n)] + directed_direct_naming(rng, 60 if tier == "quick" else 1500)
 
 
 def search(rng, tier, disagreeing):
